@@ -955,12 +955,28 @@ def shrink_case(case, fails, max_tests=250):
                             break
                     if changed:
                         break
+        # drop call arguments
+        c = copy.deepcopy(cur)
+        strip_args(c)
+        if c != cur and ok(c):
+            cur, progress = c, True
         # drop newlines
         c = copy.deepcopy(cur)
         strip_nl(c)
         if c != cur and ok(c):
             cur, progress = c, True
     return cur
+
+
+def strip_args(case):
+    def go(nodes):
+        for n in nodes:
+            if n["k"] == "c":
+                n["pos"], n["kw"] = [], []
+            if "kids" in n:
+                go(n["kids"])
+    for lv in case["levels"]:
+        go(lv["nodes"])
 
 
 def strip_nl(case):
